@@ -147,7 +147,15 @@ func (h *c18Hub) publish(from, topic, msg string) (err error) {
 	} else if !h.dead && !h.muted[from] {
 		kind := h.expect[from]
 		if kind == "" {
-			kind = "unexpected:" + msg
+			// a publish the harness did not trigger (an eager announcement, ...):
+			// classify it with the code's own decoder; what it does to a receiver
+			// is checked when the model delivers it
+			cmd := &peerCommand{}
+			if cmd.unmarshal(msg) && (cmd.action == Register || cmd.action == Unregister) {
+				kind = string(cmd.action)
+			} else {
+				kind = "unexpected:" + msg
+			}
 		}
 		h.expect[from] = ""
 		for id, s := range h.subs {
@@ -306,6 +314,9 @@ func (h *c18Harness) start(id string) error {
 	if err := n.p.Start(); err != nil {
 		return err
 	}
+	h.hub.mu.Lock()
+	h.hub.recv[id] = true // subscribed from here on (an announcement made by Ready reaches the node itself too)
+	h.hub.mu.Unlock()
 	// RedisPubsubPeers builds its TTL map on the wall clock (NewMapWithTTL does
 	// not take the injected clock); move it, and whatever Start stored in it, to
 	// the fake clock before anything else happens.
@@ -335,12 +346,9 @@ func (h *c18Harness) start(id string) error {
 	switch {
 	case d+delay > ttl || (!h.closed && d+delay == ttl):
 		h.timing = fmt.Sprintf("refresh interval %v + delivery delay %v is not below the entry timeout %v: live entries expire between refreshes", d, delay, ttl)
-	case d < time.Duration(h.rlo)*h.unit || d > time.Duration(h.rhi)*h.unit || ttl != time.Duration(h.T)*h.unit:
+	case d > time.Duration(h.rhi)*h.unit || ttl != time.Duration(h.T)*h.unit: // a shorter period only refreshes more often
 		return fmt.Errorf("the specification's constants (gap %d..%d, timeout %d ticks of %v) do not cover the code's (refresh %v, timeout %v)", h.rlo, h.rhi, h.T, h.unit, d, ttl)
 	}
-	h.hub.mu.Lock()
-	h.hub.recv[id] = true
-	h.hub.mu.Unlock()
 	h.status[id] = "up"
 	return nil
 }
@@ -359,27 +367,26 @@ func (h *c18Harness) leave(id, how string) {
 func (h *c18Harness) deliver(to, from, kind string) error {
 	n := h.nodes[to]
 	h.hub.mu.Lock()
-	q := h.hub.queue[to]
-	idx := -1
-	for i, m := range q {
+	// registers of one sender that are in flight together travel together (in publish order)
+	var msgs, rest []c18Msg
+	for _, m := range h.hub.queue[to] {
 		if m.from == from && m.kind == kind {
-			idx = i
-			break
+			msgs = append(msgs, m)
+		} else {
+			rest = append(rest, m)
 		}
 	}
-	var msg c18Msg
-	if idx >= 0 {
-		msg = q[idx]
-		h.hub.queue[to] = append(append([]c18Msg{}, q[:idx]...), q[idx+1:]...)
-	}
+	h.hub.queue[to] = rest
 	sub, ok := h.hub.subs[to]
 	h.hub.mu.Unlock()
-	if idx < 0 || n == nil || !ok {
+	if len(msgs) == 0 || n == nil || !ok {
 		return fmt.Errorf("no %s message from %s queued for %s", kind, from, to)
 	}
 	h0, ok0 := n.met.Get("peer_hash")
 	before := n.cbCount.Load()
-	sub.cb(context.Background(), msg.payload)
+	for _, msg := range msgs {
+		sub.cb(context.Background(), msg.payload)
+	}
 	// callbacks run in goroutines of their own: wait for them exactly when the
 	// node reports a new peer hash
 	if h1, ok1 := n.met.Get("peer_hash"); ok1 != ok0 || h1 != h0 {
@@ -404,6 +411,13 @@ func (h *c18Harness) Apply(a map[string]any) (err error) {
 	}()
 	for _, n := range h.nodes {
 		n.cbSeen = n.cbCount.Load()
+	}
+	for drained := false; !drained; { // publish signals of earlier steps
+		select {
+		case <-h.hub.pubSig:
+		default:
+			drained = true
+		}
 	}
 	id := verifkit.Str(a, "n")
 	switch verifkit.Str(a, "name") {
@@ -485,9 +499,9 @@ func (h *c18Harness) Project() (out any, err error) {
 		}
 		peers[id] = map[string]any{"addrSet": set, "len": count}
 		// the refresh period the node currently asks the clock for (NewTicker or a
-		// later Reset) must lie in the envelope the model's ticker firings assume
+		// later Reset) must not be longer than the envelope the model's ticker firings assume
 		if n := h.nodes[id]; n != nil && n.pub != nil && h.status[id] == "up" {
-			if d := time.Duration(n.pub.d.Load()); d < time.Duration(h.rlo)*h.unit || d > time.Duration(h.rhi)*h.unit {
+			if d := time.Duration(n.pub.d.Load()); d > time.Duration(h.rhi)*h.unit {
 				off = append(off, id)
 			}
 		}
@@ -497,9 +511,13 @@ func (h *c18Harness) Project() (out any, err error) {
 	}
 	pending := []any{}
 	h.hub.mu.Lock()
+	seenMsg := map[string]bool{}
 	for to, q := range h.hub.queue {
 		for _, msg := range q {
-			pending = append(pending, map[string]any{"to": to, "from": msg.from, "kind": msg.kind})
+			if k := to + "|" + msg.from + "|" + msg.kind; !seenMsg[k] {
+				seenMsg[k] = true
+				pending = append(pending, map[string]any{"to": to, "from": msg.from, "kind": msg.kind})
+			}
 		}
 	}
 	h.hub.mu.Unlock()
